@@ -429,7 +429,7 @@ pub open spec fn wf_items(big: bool, d: Seq<u8>) -> bool {
 
 // ---------------- C03 per-block statement ----------------
 /// strict overlap with the query range [s, e)
-pub open spec fn keep(v: Value, s: u32, e: u32) -> bool { v.end > s && v.start < e }
+pub open spec fn keep(v: Value, s: u32, e: u32) -> bool { s < e && v.end > s && v.start < e }   // an empty range overlaps nothing
 /// clipped to [max(v.start, s), min(v.end, e)); value bits untouched
 pub open spec fn clip(v: Value, s: u32, e: u32) -> Value {
     Value { start: if v.start >= s { v.start } else { s }, end: if v.end <= e { v.end } else { e }, value: v.value }
@@ -823,7 +823,7 @@ fn get_block_values(
                     end: chrom_end,
                     value,
                 };
-                if value.end > start && value.start < end {
+                if start < end && value.end > start && value.start < end {
                     value.start = max_u32(value.start, start);
                     value.end = min_u32(value.end, end);
                     values.push(value)
@@ -873,7 +873,7 @@ fn get_block_values(
                     end: chrom_end,
                     value,
                 };
-                if value.end > start && value.start < end {
+                if start < end && value.end > start && value.start < end {
                     value.start = max_u32(value.start, start);
                     value.end = min_u32(value.end, end);
                     values.push(value)
@@ -928,7 +928,7 @@ fn get_block_values(
                     end: chrom_end,
                     value,
                 };
-                if value.end > start && value.start < end {
+                if start < end && value.end > start && value.start < end {
                     value.start = max_u32(value.start, start);
                     value.end = min_u32(value.end, end);
                     values.push(value)
